@@ -622,7 +622,7 @@ def install():
             return
         import workload as wl
         call = {"t": sim_time.time, "policy": type(self).__name__, "offered": None,
-                "preemptive": bool(self.preemptive),
+                "preemptive": bool(self.preemptive), "retracting": bool(getattr(self, "retract_schedules", False)),
                 "resident": sum(len(e["members"]) for sw in ctx.live.values()
                                 for e in sw["residents"].values() if e["type"] != "profile"),
                 "states": {tid: t._state.name for tid, t in ctx.task_objs.items()},
@@ -1271,7 +1271,8 @@ def _joint_facts(ctx, call, kind):
         for a in ns:
             if desc(a) & (set(ns) - {a}):
                 dep = True
-    return {"dependent_pair_collides": dep, "deferred_pending": bool(jf.get("deferred_pending"))}
+    return {"dependent_pair_collides": dep, "deferred_pending": bool(jf.get("deferred_pending")),
+            "retracting": bool(call.get("retracting"))}
 
 
 def _loaded_profile_check(ctx, sim, event):
